@@ -104,6 +104,18 @@ theorem manifest_changes_only_with_number (t : Timing) (s : KeyObjectSet) (op : 
   cases op <;> simp [KeyObjectSet.step, update_manifest, updateCerts_manifest, KeyObjectSet.retire,
     KeyObjectSet.reissue, Revision.next]
 
+/-! ### The trust anchor's manifest number
+
+The daemon always passes `None` for the override; `krillta`'s `--ta-mft-number-override` is an explicit
+operator input, and is exactly what can break monotonicity. -/
+
+theorem ta_number_plus_one (o : TaObjects) (a b : Nat) :
+    (o.republish a b none).revision.number = o.revision.number + 1 := rfl
+
+theorem ta_override_breaks_monotonicity :
+    ∃ (o : TaObjects) (n : Nat), (o.republish 0 0 (some n)).revision.number < o.revision.number :=
+  ⟨{ revision := ⟨5, 0, 0⟩ }, 1, by decide⟩
+
 /-! ### Renewal of signed objects -/
 
 /-- `create_renewal`: exactly the objects that expire before the threshold (all, if forced) are
